@@ -99,6 +99,17 @@ func execInv(a []Tok) string {
 		return fmtF(stats.InvCDF(d)(y)) + " " + fmtF(d.InvCDF(y))
 	}
 	d, rest := mkDist(a)
+	if rest[0].IsArr {
+		// several y through ONE closure, in the given order (the returned function must not
+		// depend on earlier calls)
+		inv := stats.InvCDF(d)
+		ys := rest[0].Fs()
+		xs := make([]float64, len(ys))
+		for i, y := range ys {
+			xs[i] = inv(y)
+		}
+		return fmtFs(xs)
+	}
 	y := rest[0].F()
 	x := stats.InvCDF(d)(y)
 	if a[0].Atom == "cont" {
@@ -187,6 +198,7 @@ func genC07(w *bufio.Writer, tier string, rng *rand.Rand) {
 		toks, _ := parseLine(pw)
 		d := mkPW(toks[0])
 		ny := 3 + rng.Intn(6)
+		var ys []float64
 		for q := 0; q < ny; q++ {
 			var y float64
 			switch rng.Intn(8) {
@@ -208,7 +220,20 @@ func genC07(w *bufio.Writer, tier string, rng *rand.Rand) {
 			default:
 				y = rng.Float64()
 			}
-			fmt.Fprintf(w, "inv pw %s %s\n", pw, fmtF(y))
+			ys = append(ys, y)
+			if rng.Intn(3) == 0 && y > 0 && y < 1 { // revisit a neighbouring level right after
+				ys = append(ys, math.Nextafter(y, float64(rng.Intn(2)*3-1)))
+			}
+			if rng.Intn(4) == 0 && len(ys) > 1 { // repeat an earlier query
+				ys = append(ys, ys[rng.Intn(len(ys))])
+			}
+		}
+		if rng.Intn(3) == 0 {
+			for _, y := range ys {
+				fmt.Fprintf(w, "inv pw %s %s\n", pw, fmtF(y))
+			}
+		} else {
+			fmt.Fprintf(w, "inv pw %s %s\n", pw, fmtFs(ys))
 		}
 		if rng.Intn(4) == 0 {
 			fmt.Fprintf(w, "rnd pw %s %d\n", pw, rng.Intn(1<<30))
@@ -229,6 +254,20 @@ func genC07(w *bufio.Writer, tier string, rng *rand.Rand) {
 			}
 			if y > 0 && y < 1 {
 				fmt.Fprintf(w, "inv bin %d %s %s\n", nn, fmtF(p), fmtF(y))
+				// a history through one closure: between two jump levels, then exactly at the lower one, etc.
+				k := rng.Intn(nn)
+				c0, c1 := d.CDF(float64(k)), d.CDF(float64(k+1))
+				hist := []float64{(c0 + c1) / 2, c0, c1, rng.Float64(), c0, (c0 + c1) / 2}
+				rng.Shuffle(len(hist), func(i, j int) { hist[i], hist[j] = hist[j], hist[i] })
+				ok := true
+				for _, h := range hist {
+					if !(h > 0 && h < 1) {
+						ok = false
+					}
+				}
+				if ok {
+					fmt.Fprintf(w, "inv bin %d %s %s\n", nn, fmtF(p), fmtFs(hist))
+				}
 			}
 			fmt.Fprintf(w, "rnd bin %d %s %d\n", nn, fmtF(p), rng.Intn(1<<30))
 		case 1:
